@@ -310,7 +310,68 @@ end CpModel.Gen.C08
     out = dict(c02.tables(ctx))
     out['CpModel/Gen/C08Tables.lean'] = src
     out['CpModel/Gen/C08Env.lean'] = env_src
+    # what the `flags` op of a driver compiled from exactly these tables prints (see private_driver)
+    import re
+    c02src = out.get('CpModel/Gen/C02Tables.lean', '')
+    m = re.search(r'def dispatchMethodName : List Nat := \[([0-9, ]*)\]', c02src)
+    dname = '.'.join(x.strip() for x in m.group(1).split(',')) if m and m.group(1).strip() else '-'
+    tt = re.search(r'def translateTable[^\n]*\n([^\n]*)', c02src)
+    ntrans = len(re.findall(r'\(\d+, \[', tt.group(1))) if tt else 0
+    _LIVE_FLAGS[0] = ' '.join([
+        'M=%d' % merged, 'S=%d' % setconf, 'X=%d' % (1 if probe_starred() else 0), 'B=' + ','.join(names),
+        'R=' + ','.join(_cprequest.Request.namespaces), 'C=' + ','.join(cherrypy.config.namespaces), 'A=' + ','.join(app_ns),
+        'H=' + ','.join(_cprequest.hookpoints),
+        'E=' + ','.join('%s:%d' % (n, len(e)) for n, e in _cpconfig.environments.items()),
+        'D=' + dname, 'T=%d' % ntrans])
     return out
+
+
+_LIVE_FLAGS = [None]
+_PRIVATE = {'path': None, 'pid': None}
+
+
+def private_driver(ctx):
+    """The compiled driver lives at one shared path: a concurrent check of the same property against ANOTHER tree (a seed
+    or mutation evaluation) regenerates the tables and rebuilds it.  So this run works with a private copy of the
+    binary, taken once and accepted only if the tables compiled into it (`flags` op) are the ones of the live tree;
+    otherwise tables + build are redone (under common's lock) and the copy is taken again."""
+    import atexit
+    import shutil
+    import subprocess
+    import tempfile
+    if ctx.driver is None or _LIVE_FLAGS[0] is None or not (ctx.lean and ctx.lean.driver_ok):
+        return
+    if _PRIVATE['path'] is not None and os.path.exists(_PRIVATE['path']):
+        ctx.driver.path = _PRIVATE['path']
+        return
+    shared = ctx.driver.path
+    d = tempfile.mkdtemp(prefix='c08drv')
+    me = os.getpid()
+
+    def cleanup():
+        if os.getpid() == me:
+            shutil.rmtree(d, ignore_errors=True)
+    atexit.register(cleanup)
+    mine = os.path.join(d, 'drv_c08')
+    last = None
+    for attempt in range(4):
+        try:
+            shutil.copy2(shared, mine)
+            r = subprocess.run([mine], input=b'flags\n', stdout=subprocess.PIPE, stderr=subprocess.PIPE, timeout=120)
+            last = r.stdout.decode('utf-8', 'replace').strip()
+        except (OSError, subprocess.SubprocessError) as e:
+            last = 'copy/run failed: %r' % (e,)
+        if last == _LIVE_FLAGS[0]:
+            _PRIVATE['path'], _PRIVATE['pid'] = mine, me
+            ctx.driver.path = mine
+            if attempt:
+                ctx.note('driver binary had been rebuilt for another tree by a concurrent check; rebuilt %d time(s)' % attempt)
+            return
+        ctx.lean = common.lean_prepare(ctx.mod, ctx)          # tables of THIS tree + build, under the lock
+        if not (ctx.lean and ctx.lean.driver_ok):
+            return
+    raise common.HarnessError('the shared driver binary keeps being rebuilt for another tree (concurrent checks of C08 with a '
+                              'different CHERRYPY_REPO): compiled %r, live %r' % (last, _LIVE_FLAGS[0]))
 
 
 # ----------------------------------------------------------------------------------------------
@@ -1664,6 +1725,8 @@ def _worker(args):
     sub = common.Ctx(__import__('harness.c08', fromlist=['x']), 'thorough', seed)
     sub.rng = random.Random(seed)
     sub.lean = _WORKER_LEAN[0]
+    if _PRIVATE['path'] and sub.driver is not None:
+        sub.driver.path = _PRIVATE['path']
     safe_init(sub)
     COV.start()
     check_config_cases(sub, [gen_config_case(sub.rng, i) for i in range(n)])
@@ -1713,6 +1776,8 @@ def _worker_enum(args):
     lo, hi = args
     sub = common.Ctx(__import__('harness.c08', fromlist=['x']), 'thorough', 0)
     sub.lean = _WORKER_LEAN[0]
+    if _PRIVATE['path'] and sub.driver is not None:
+        sub.driver.path = _PRIVATE['path']
     COV.start()
     check_config_cases(sub, [enum_scope_case(b) for b in range(lo, hi)])
     return _export(sub)
@@ -1748,6 +1813,7 @@ def safe_init(ctx):
 
 def run(ctx):
     safe_init(ctx)
+    private_driver(ctx)
     cov = COV.start()
     try:
         _run(ctx, cov)
@@ -1789,6 +1855,7 @@ def _run(ctx, cov):
 
 def search(ctx, around=None):
     safe_init(ctx)
+    private_driver(ctx)
     if around is not None and 'tree' in around:
         case = dict(around)
         spec = case['tree']
@@ -1808,6 +1875,7 @@ def search(ctx, around=None):
 
 def replay(ctx, case):
     safe_init(ctx)
+    private_driver(ctx)
     if 'hist' in case:
         H.replay(ctx, case)
         return
